@@ -344,10 +344,10 @@ choke_queue::set_snubbed(PeerConnectionBase* pc, choke_status* base) {
     return;
   }
 
+  // Keep the queued flag, it records the peer's interest and makes
+  // set_not_snubbed() queue the connection again.
   base->entry()->connection_unqueued(pc);
   modify_currently_queued(-1);
-
-  base->set_queued(false);
 }
 
 void
